@@ -418,6 +418,14 @@ def torch_trace(n=4, rank=0, seed=0):
                    "dur": 30.0, "args": {"External id": ext, "Sequence number": k}})
         ev.append({"ph": "X", "cat": "cuda_runtime", "name": "aiuLaunchKernel", "pid": host, "tid": host, "ts": t + 2,
                    "dur": 4.0, "args": {"External id": ext, "correlation": corr}})
+        if seed % 2 == 1:
+            # a launch flow as the profiler writes it: flow start at the launch, a ScheduleWait slice and the kernel carry
+            # the correlation id; the tool synthesizes the missing arrows from event objects it REMEMBERS while later
+            # stages rewrite them in place (pid/tid of the refined view)
+            ev.append({"ph": "s", "cat": "ac2g", "name": "ac2g", "pid": host, "tid": host, "ts": t + 2, "id": corr})
+            ev.append({"ph": "X", "cat": "cpu_op", "name": "ScheduleWait", "pid": host, "tid": host, "ts": t + 7, "dur": 20.0,
+                       "args": {"External id": ext, "correlation": corr}})
+            ev.append({"ph": "f", "cat": "ac2g", "name": "ac2g", "pid": 0, "tid": 7, "ts": t + 12, "id": corr, "bp": "e"})
         ev.append({"ph": "X", "cat": "gpu_memcpy", "name": "Memcpy (HtoD)", "pid": 0, "tid": 7, "ts": t + 8, "dur": 3.0,
                    "args": {"External id": ext, "correlation": corr, "device": 0, "stream": 7, "bytes": 4096}})
         ev.append({"ph": "X", "cat": "kernel", "name": f"mm_kernel_{k % 2}", "pid": 0, "tid": 7, "ts": t + 12,
@@ -507,7 +515,12 @@ def write_inputs(d, scen):
     if "torch" in scen:
         p = os.path.join(d, "torch_rank0.json")
         with open(p, "w") as fh:
-            json.dump(torch_trace(n=scen["torch"], seed=scen["seed"]), fh)
+            doc = torch_trace(n=scen["torch"], seed=scen["seed"])
+            if scen.get("as_list"):
+                # the same events as a bare event list: no deviceProperties, so the FLEX dialect classifies them (host-side
+                # launch flows of a FLEX job), string tids replaced by numbers
+                doc = [dict(e, tid=911) if isinstance(e.get("tid"), str) else e for e in doc["traceEvents"]]
+            json.dump(doc, fh)
         return [p], []
     from lib import stage
     files = scenario_files(scen)
@@ -882,12 +895,16 @@ def gen_e2e_cases(ctx: Ctx):
         yield {"kind": "e2e", "scen": scen, "opts": optsets[k % len(optsets)] if k else [], "variants": variants, "seed": rng.randint(0, 10 ** 6)}
     # TORCH-dialect runs under test (kernel / memcpy events), preceded by FLEX runs and vice versa: both orders of a
     # dialect pair in one process, each compared with its own fresh-interpreter reference
-    for k in range(ctx.n(2, 8)):
+    for k in range(ctx.n(3, 10)):
         variants = list(VARIANTS_TORCH) + [opt_variant(OPTION_PREDS[k % 4]), opt_variant(OPTION_PREDS[4 + k % 10])]
         if k % 2:
             rng.shuffle(variants)
-        yield {"kind": "e2e", "scen": {"torch": rng.randint(2, 6), "seed": rng.randint(0, 10 ** 6)},
-               "opts": [[], ["--tb"], ["--flow"], ["-M"]][k % 4], "variants": variants, "seed": rng.randint(0, 10 ** 6)}
+        # odd generator seeds carry launch flows; a counter set without coll_bw keeps the event OBJECTS of the early
+        # stages alive up to the export (the bandwidth stage hands on copies)
+        yield {"kind": "e2e", "scen": {"torch": rng.randint(2, 6), "seed": 2 * rng.randint(0, 5 * 10 ** 5) + (1 if k % 5 in (1, 4) else k % 2),
+                                       **({"as_list": True} if k % 3 == 1 else {})},
+               "opts": [[], ["-C", "prep_queue"], ["--tb"], ["--flow"], ["-C"], ["-M"]][k % 6], "variants": variants,
+               "seed": rng.randint(0, 10 ** 6)}
     # the compiler-log path (rcu_utilization keeps fingerprints built from hash(str))
     yield {"kind": "e2e", "scen": {"testdata": "flex+complog"}, "opts": [], "seed": rng.randint(0, 10 ** 6),
            "variants": ["seed:1", "seed:5", "seed:12345", "I:2", "inproc", "after:A", "after:abort-be", "inproc-again"]}
